@@ -41,6 +41,17 @@ RULE = ("masks up to 6x6 with 1..10 unmasked pixels (densities 0.15-0.9, single 
         "own sub-pixel grid plus a deflection; a quarter of the exact rectangular and of the Delaunay cases have the whole source plane scaled "
         "by 2^-30, 2^-10 or 2^20; a third of the Delaunay cases put data points 2^-8..2^-26 away from a vertex or the midpoint of two vertices "
         "(tiny non-zero weights); every fresh mapper is read twice (and through the per-field accessors) and its inputs are compared with snapshots. "
+        "(h) MESH API with relocation: aa.mesh.Rectangular(shape).mapper_grids_from / aa.mesh.Delaunay().mapper_grids_from(mask, source_plane_data_grid, "
+        "source_plane_mesh_grid, border_relocator=aa.BorderRelocator(mask, sub_size as int or as the over-sampler's Array2D), preloads) + aa.Mapper on masks "
+        "with >= 2 (Delaunay >= 3) pixels, 1-3 NON-border sub-pixels traced 3x..400x beyond the cloud (the sub-pixels the relocator moves), for Delaunay "
+        "1-2 vertices 4x / 20x outside as well; 10% without relocator, 25% with preloads.relocated_grid = another grid with modest outliers; the source grid "
+        "also as a uniform Grid2D; half of the calls on a mesh object that has just served ANOTHER source plane with the same relocator; the shared default "
+        "Preloads() objects of the API fingerprinted before / after. Observed: the grids the mapper HOLDS (mapper.source_plane_data_grid / "
+        "source_plane_mesh_grid) and the four C06 observables; checked inside Coq (KMeshApi): held grids = C18's relocation model of the originals "
+        "(untouched coordinates bit for bit, moved ones to 1e-9) and accepted by C18's relocation specification, and the KRect / KDel clauses (mesh = overlay "
+        "of the HELD grid, cell containment / barycentric weights / matrix / unique / neighbours) on the held grids; cases with a relocation decision "
+        "inside C18's 1e-6 band, a held point within 1e-9 cell widths of a cell boundary or 1e-9 (barycentric) of a simplex edge, or nearly degenerate "
+        "relocated vertices are skipped and counted. A quarter of the histories (g) build their mapper this way (KMeshApi on the closing readings). "
         "Non-trivial = more than one source pixel receives flux; distinct = distinct JSON input.")
 EXHAUSTIVE = {"quick": "rectangular neighbour arrays: every mesh shape H, W in 2..9",
               "thorough": "rectangular neighbour arrays: every mesh shape H, W in 2..16"}
@@ -51,6 +62,9 @@ TRUSTED = ["hand-written Gallina model coq/Model/C06.v + coq/Model/C06h.v (histo
            "(reported simplex contains the point, -1 only outside every simplex, non-degenerate simplices, neighbour lists = edges of the simplices) "
            "is re-checked in exact rational arithmetic inside Coq (oracle_ok, neighbors_spec) on every Delaunay case",
            "numpy element-wise arithmetic, np.min/np.max/np.argmin, integer indexing (negative indices wrap)",
+           "mesh-API stream: coq/Model/C18.v (relocation model relocated_with and specification relocation_ok / sub_border_ok, C18's subject) is reused "
+           "for the grids the mapper holds; the relocator's sub_border_slim is taken from the BorderRelocator object and accepted on its own terms by "
+           "C18.sub_border_ok; decision bands computed on an independent Fraction/float reference of the relocation (harness ref_relocate, harness/c18.in_band_F)",
            "python int() = truncation toward zero (NumOps.trunc)"]
 ASSUMPTIONS = ["real arithmetic (no rounding): theorems over R; correspondence on exactly representable inputs or under tolerance 1e-9 with every "
                "cell-boundary decision at a margin >= 1e-9 cell widths",
@@ -422,7 +436,7 @@ def gen_inputs(tier, rng):
         g = gen_hist(rng, "del" if i % 3 else "rect")
         if g is not None: yield g
     # (h) mappers built through the MESH API with a BorderRelocator and outliers (and preloads.relocated_grid)
-    for i in range(300 if big else 14):
+    for i in range(150 if big else 14):
         for f in (lambda: gen_rect(rng, "public", maxn, reloc=True, cap=24 if not big else 40),
                   lambda: gen_del(rng, maxn, reloc=True, cap=24 if not big else 40, kmax=8 if not big else 10)):
             g = next((x for x in (f() for _ in range(20)) if x is not None), None)
